@@ -1738,6 +1738,8 @@ class Union(OR):
         # init an empty source if none is provided
         sources = sources or {}
         self._yield_when_false_ = yield_when_false
+        # which branches produced the row that is handed out belongs to this evaluation only
+        self.left_evaluated = self.right_evaluated = False
 
         if self._can_answer_from_cache_ and self._cache_.check(sources):
             yield from self.yield_final_output_from_cache(sources)
